@@ -224,6 +224,10 @@ impl RandomAccess for MemFile {
         Box::pin(async move {
             self.tick()?;
             let mut d = self.disk.0.lock().unwrap();
+            // as random-access-memory / random-access-disk: a delete that starts beyond the end is refused, a zero-length one is a no-op
+            let flen = d.files[self.which].len() as u64;
+            if offset > flen { return Err(RandomAccessError::OutOfBounds { offset, end: None, length: flen }); }
+            if length == 0 { return Ok(()); }
             let op = Op::Del(self.which, offset, length);
             SharedDisk::apply(&mut d.files, &op);
             d.journal.push(op);
